@@ -28,6 +28,10 @@ def alphabet(kind):
         for a in [(0, 0, 0), (1, 0, 0), (0.5, 0.5, 0.5), (0, 0, 2)]:
             for d in AXDIRS:
                 A.append(rp.Line(a, d))
+        # the same lines described with the opposite direction vector (appended: indices above stay stable)
+        for a in [(0, 0, 0), (0.5, 0.5, 0.5), (0.25, 1.0, 2)]:
+            for d in (AXDIRS[0], AXDIRS[2], AXDIRS[3], AXDIRS[5]):
+                A.append(rp.Line(a, -d))
     elif kind == "segment":
         for a, b in [((0, 0, 0), (1, 0, 0)), ((0, 0, 0), (0, 0, 2)), ((-1, -1, -1), (1, 1, 1)), ((1, 0, 0), (1, 1, 0)),
                      ((0.5, 0.5, 1), (0.5, 0.5, 3)), ((-2, 1, 0), (2, 1, 0)), ((0, 0, 0), (100, 0, 0)), ((0.3, -0.7, 1.9), (1.1, 0.4, -0.6)),
@@ -42,6 +46,9 @@ def alphabet(kind):
         for a in [(0, 0, 0), (0, 0, 1), (0.5, 0.5, 0.5)]:
             for m in AXDIRS[:6]:
                 A.append(rp.Plane(a, m))
+        for a in [(0, 0, 1), (0.5, 0.5, 0.5)]:
+            for m in (AXDIRS[2], AXDIRS[0], AXDIRS[4]):
+                A.append(rp.Plane(a, -m))      # opposite normals (appended)
     elif kind == "triangle":
         base = [[(0, 0, 0), (1, 0, 0), (0, 1, 0)], [(0, 0, 1), (1, 0, 1), (0, 1, 1)], [(0, 0, 0), (1, 0, 0), (0, 0, 1)],
                 [(0, 0, 0), (1, 0, 0), (0, 1, 1)], [(0, 0, 0), (100, 0, 0), (0, 100, 0)], [(0, 0, 0), (1, 0, 0), (0.5, 0.2, 0)],
